@@ -307,6 +307,7 @@ class MonoTimer(object):
             effectively doubling the time
 
         """
+        self.update() #shift .start first if clock retrograded
         if extension is None: #otherwise extend by .duration or double
             extension = self.duration
 
